@@ -30,6 +30,8 @@ inductive Hole where
   | plmn
   /-- the argument itself: int64 → INTEGER, string → string, an ngapType value → that value -/
   | arg (i : Nat)
+  /-- a `string` argument as a string value -/
+  | argStr (i : Nat)
   /-- a slice-of-structs argument (a nil slice is the empty list) -/
   | argSlice (i : Nat)
   /-- a `[]byte` argument as OCTET STRING contents (a nil slice is the empty string) -/
